@@ -138,8 +138,24 @@ def check(ctx):
     run.floor('C16.no-sharing', 40)
 
     # class-level / module-level state (the parser modules and everything they use)
+    # the modules the parser can touch: the import closure of json_ast (by-name call edges would drag in the generator)
+    used_modules = {parser.module.name}
+    work = [parser.module.name]
+    while work:
+        m = prog.modules.get(work.pop())
+        if m is None:
+            continue
+        for tgt in m.imports.values():
+            name = tgt[0] if isinstance(tgt, tuple) else None
+            cands = [name, f'{name}.{tgt[1]}' if isinstance(tgt, tuple) and tgt[1] else None]
+            for c in cands:
+                if c in prog.modules and c not in used_modules:
+                    used_modules.add(c)
+                    work.append(c)
+    run.stats['parser_modules'] = sorted(used_modules)
     for inst in module_state_instances(ctx):
-        run.add('C16.instance-state', *inst)
+        if inst[0] in used_modules:
+            run.add('C16.instance-state', *inst)
 
     # ---- C16.idempotent ---------------------------------------------------------------------------------------
     _idempotent(ctx, mut, parser, fresh_attrs)
@@ -195,8 +211,19 @@ def _idempotent(ctx, mut: Mutations, parser: ClassInfo, fresh_attrs):
                 if _is_fresh_reset(mut, m, stmt, attr) or _calls_resetter(ctx, mut, parser, m, stmt, attr):
                     reset_idx = k
                     break
-            _stale_returns(ctx, mut, parser, m, attr, reset_idx)
+            _stale_returns(ctx, mut, parser, m, attr, min([x for x in (reset_idx, grow_idx) if x is not None], default=None))
             ok = grow_idx is not None and reset_idx is not None and reset_idx < grow_idx
+            if not ok and grow_idx is not None:
+                # alternative: the grown containers are emptied in place before the first growth
+                grown_sub = {pth[1] for pth in grown if pth[:1] == (attr,) and len(pth) > 1 and pth[1] not in ('*', '[]')}
+                cleared = _cleared_before(mut, m, attr, grow_idx)
+                if cleared is not None and grown_sub:
+                    missing = sorted(grown_sub - cleared)
+                    run.add('C16.idempotent', m.module.name, m.qualname, f'{m.qualname} empties self.{attr} in place', not missing,
+                            f'every container of self.{attr} that {m.name}() grows is emptied before the first growth' if not missing else
+                            f'{m.name}() empties the containers of self.{attr} in place but not {missing}: a second call appends '
+                            f'the declarations of those kinds again', node=body[grow_idx])
+                    continue
             run.add('C16.idempotent', m.module.name, m.qualname, f'{m.qualname} grows and returns self.{attr}', ok,
                     f'self.{attr} is re-initialised with a fresh value before the first growth' if ok else
                     f'{m.qualname}() appends into self.{attr} (via {" <- ".join(ev.chain()[:3])}) and returns it, but '
@@ -261,6 +288,29 @@ def _stale_returns(ctx, mut: Mutations, parser: ClassInfo, m: FuncInfo, attr: st
                     f'`{ast.unparse(r)}` returns the memoised result while self.{flag} is set, but {"; ".join(bad)} replaces the '
                     f'input without clearing self.{flag}: the next {m.name}() returns the contents of the previous document',
                     node=r)
+
+
+def _cleared_before(mut: Mutations, m: FuncInfo, attr: str, grow_idx: int) -> Optional[Set[str]]:
+    """Names of the sub-containers of self.<attr> on which .clear() is called by top-level statements before the first
+    growth (directly, or in a loop over a tuple / list of them); None when nothing is cleared."""
+    out: Set[str] = set()
+
+    def base_is_attr(e: ast.expr) -> bool:
+        rs = mut.roots(m, e)
+        return bool(rs) and all(r[0] == 'self' and r[1][:1] == (attr,) for r in rs)
+
+    for stmt in m.node.body[:grow_idx]:
+        if isinstance(stmt, ast.Expr) and isinstance(stmt.value, ast.Call) and isinstance(stmt.value.func, ast.Attribute) and \
+                stmt.value.func.attr == 'clear' and isinstance(stmt.value.func.value, ast.Attribute) and \
+                base_is_attr(stmt.value.func.value.value):
+            out.add(stmt.value.func.value.attr)
+        if isinstance(stmt, ast.For) and isinstance(stmt.iter, (ast.Tuple, ast.List)) and isinstance(stmt.target, ast.Name) and \
+                len(stmt.body) == 1 and isinstance(stmt.body[0], ast.Expr) and isinstance(stmt.body[0].value, ast.Call) and \
+                ast.unparse(stmt.body[0].value) == f'{stmt.target.id}.clear()':
+            for e in stmt.iter.elts:
+                if isinstance(e, ast.Attribute) and base_is_attr(e.value):
+                    out.add(e.attr)
+    return out or None
 
 
 def _contains(stmt: ast.AST, node: ast.AST) -> bool:
